@@ -37,6 +37,9 @@ def roundtrip(r: Run, stream, c, label, spelling=None, full=True, want_print=Tru
         return False
     c2, exc = r.impl_decode(text)
     r.correspond(stream, text, c2, exc)
+    if label in ('CUGate', 'random-2'):
+        ck.sample({'stream': stream, 'circuit': fmt_ops(impl_ops(c))[:400], 'qasm': text[:600],
+                   'decoded': fmt_ops(impl_ops(c2))[:400] if c2 is not None else exc}, limit=12)
     if c2 is None:
         ck.violation(
             f'C17-roundtrip-unreadable:{spelling or label}',
@@ -198,6 +201,26 @@ def stream_lib(r: Run, ncirc):
         if i % 3 == 0:
             check_gate_defs(r, c, 'lib-circuit')
         ck.bump('lib_circuit_qubits', str(n))
+        if i < 3:       # the file front end: Circuit.save / Circuit.from_file
+            import os
+            import tempfile
+            with tempfile.TemporaryDirectory(prefix='c17-') as td:
+                fn = os.path.join(td, f'c{i}.qasm')
+                try:
+                    c.save(fn)
+                    back = Circuit.from_file(fn)
+                    same = open(fn).read() == c.to('qasm') and ops_diff(
+                        canon(impl_ops(back)), canon(impl_ops(c)), 1e-14) is None
+                except BaseException as e:
+                    if isinstance(e, (KeyboardInterrupt, SystemExit)):
+                        raise
+                    same = False
+                ck.count(('lib-file', i))
+                if not same:
+                    ck.violation('C17-roundtrip-file',
+                                 'Circuit.save / Circuit.from_file do not round-trip a circuit '
+                                 'that to(qasm)/decode round-trips',
+                                 {'stream': 'lib-circuit', 'text': c.to('qasm')})
 
 
 def _encodable(c):
@@ -332,7 +355,7 @@ def stream_prog(r: Run, nprog):
         for s in p.stmts:
             ck.bump('prog_statements', s[0])
         if made in (3, 40):
-            ck.sample({'program': text})
+            ck.sample({'stream': 'prog', 'program': text}, limit=12)
         check_program(r, 'prog', text, (n, ops), use_qiskit, prog=p)
 
 
@@ -415,6 +438,10 @@ def expr_case(r: Run, stream, etext, refval, expect_ok=True, sig=None, what=None
         ptxt = eval_exp_recurse(ex)
     except Exception:
         pass
+
+    if etext in ('-2^2', '2*(1+2)', 'sqrt(2)/2'):
+        ck.sample({'stream': stream, 'expression': etext, 'bqskit': ival, 'reference': refval,
+                   'qiskit': qval, 'lark_tree': ltree, 'python_text': ptxt}, limit=12)
 
     def cb(out):
         ck.bump('traces_validated_against_impl')
@@ -761,6 +788,9 @@ def stream_malformed(r: Run, nrand):
                 {'stream': 'malformed', 'family': family, 'text': text,
                  'impl': fmt_ops(impl_ops(c)), 'qiskit_rejects': q_rejects})
         ck.bump('malformed_outcome', 'rejected' if c is None else 'accepted')
+        if text.endswith('h q[3];\n') or family == 'measure-shape' and 'd[3]' in text:
+            ck.sample({'stream': 'malformed', 'family': family, 'text': text,
+                       'bqskit': exc if c is None else fmt_ops(impl_ops(c))}, limit=12)
         r.correspond('malformed', text, c, exc, extra={'family': family},
                      reported=lambda found=found: bool(found))
 
